@@ -3,6 +3,7 @@ package main
 import (
 	"fmt"
 	"net"
+	"os"
 	"sort"
 	"strings"
 
@@ -819,8 +820,14 @@ func addlSlots(w *world) []slot {
 			slots = append(slots, slot{sect, f})
 		}
 	}
-	return append(slots, slot{"mxmulti", 0})
+	if len(w.set) <= multiMaxSize {
+		slots = append(slots, slot{"mxmulti", 0})
+	}
+	return slots
 }
+
+// the several-targets shape takes two key draws per candidate: explored for sets up to this size
+var multiMaxSize = 2
 
 // runPlan enumerates every draw sequence for one candidate set.
 func runPlan(r *vlib.Run, p e2ePlan, st *e2eStats) {
@@ -843,6 +850,9 @@ func runPlan(r *vlib.Run, p e2ePlan, st *e2eStats) {
 				st.misaligned++
 				if w.backend == dnsfix.CDB {
 					st.misalignedCDB++
+					if os.Getenv("VERIF_DEBUG") != "" {
+						fmt.Fprintf(os.Stderr, "MISALIGNED cdb %s %s cl=%q: %d draws, %d rows\n", setKey(w.set), s, cl, nk, len(w.drawRows(s, cl)))
+					}
 				}
 			}
 			if nk > maxFullDraws {
@@ -915,6 +925,34 @@ func firstFailure(set []sym, p e2ePlan, s slot, cl string, kind string) setFailu
 	return f
 }
 
+// simplifySet replaces, one at a time, a candidate of a failing set by a simpler symbol of the alphabet while
+// the set still fails (the result is itself a set of the enumeration, in canonical order).
+func simplifySet(set []sym, fails func([]sym) bool) []sym {
+	set = append([]sym(nil), set...)
+	for changed := true; changed; {
+		changed = false
+		for i := range set {
+			si, ok := symIndex[set[i]]
+			if !ok {
+				continue
+			}
+			for sy := uint8(0); sy < si; sy++ {
+				t := append([]sym(nil), set...)
+				t[i] = alphabet[sy]
+				sortSyms(t)
+				if fails(t) {
+					set, changed = t, true
+					break
+				}
+			}
+			if changed {
+				break
+			}
+		}
+	}
+	return set
+}
+
 func reportMisaligned(r *vlib.Run, p e2ePlan, w *world, s slot, cl string, m int, keys []uint32, o observation) {
 	for _, kind := range o.Kinds {
 		// smallest sub-multiset of the set that violates the same clause for some maxAnswer and draw sequence
@@ -948,6 +986,7 @@ func reportMisaligned(r *vlib.Run, p e2ePlan, w *world, s slot, cl string, m int
 				break search
 			}
 		}
+		best = simplifySet(best, func(t []sym) bool { return firstFailure(t, p, s, cl, kind).found })
 		f := firstFailure(best, p, s, cl, kind)
 		if !f.found {
 			f = setFailure{true, m, append([]uint32(nil), keys...), o}
